@@ -875,6 +875,11 @@ func (w *world) step(i int, op Op) error {
 			if !w.locked {
 				w.mem = map[string]*memEntry{}
 			}
+			// whatever the underlying agent refused on the way: a remove-all that reports success has removed
+			// everything (nothing else edits the keyring during the call)
+			if opErr == nil && !w.locked && len(ringAfter) != 0 {
+				return Errf("%s (disturbed by a fault of the underlying agent) reported success, yet the underlying agent still holds %s", where, describe(blobsOf(ringAfter)))
+			}
 		case "remove":
 			// the in-memory entry is dropped before the underlying agent is asked
 			if key != nil && !w.locked {
